@@ -24,6 +24,9 @@ ASSUMPTIONS = ['pure differential between the library\'s own supply forms; docum
 XSL = 'http://www.w3.org/1999/XSL/Transform'
 SRCFORMS = ['stream', 'file', 'parsed-native', 'parsed-xerces', 'xerces-wrapper', 'st-wrapper', 'builder']
 XSLFORMS = ['stream', 'file', 'compiled', 'pi']
+PI_FORMS = ['<?xml-stylesheet type="text/xsl" href="main.xsl"?>', '<?xml-stylesheet href="main.xsl" type="text/xsl"?>', "<?xml-stylesheet href='main.xsl' type='text/xml'?>",
+            '<?xml-stylesheet title="t" href="main.xsl" media="screen" type="application/xml" alternate="no"?>', '<?xml-stylesheet   type = "text/xsl"   href = "main.xsl"  ?>',
+            '<?xml-stylesheet alternate="no" type="text/xsl" title="t" href="main.xsl"?>']
 OUTFORMS = ['stream', 'file', 'cfile', 'callback', 'events', 'xercesdom', 'sourcetree']
 CAPI = ['tofile', 'todata', 'tohandler', 'prebuilt-data', 'prebuilt-handler', 'prebuilt-file']
 OPEN = set()
@@ -53,6 +56,9 @@ def cases(draw):
     if api == 'cpp':
         form['src'] = draw(st.sampled_from(SRCFORMS))
         form['xsl'] = draw(st.sampled_from(XSLFORMS))
+        if form['xsl'] == 'pi':
+            # the pseudo-attributes of the xml-stylesheet PI may come in any order, with either quote, with others in between
+            form['pi'] = draw(st.sampled_from(PI_FORMS))
         form['out'] = draw(st.sampled_from(OUTFORMS))
     elif api == 'capi':
         form['capi'] = draw(st.sampled_from(CAPI))
@@ -168,7 +174,7 @@ def check(ctx, case):
         x = xml
         if xslf == 'pi':
             src = 'file'   # the PI is resolved relative to a real source file
-            x = '<?xml-stylesheet type="text/xsl" href="main.xsl"?>' + xml
+            x = form.get('pi', PI_FORMS[0]) + xml
             if imported is None and not case['doc2']:
                 pass
         if outf == 'callback' and not ((src in ('stream', 'file') and xslf in ('stream', 'file', 'pi')) or (src not in ('stream', 'file') and xslf == 'compiled')):
